@@ -1,5 +1,6 @@
 import SctpVerif.Proofs.NetSys.PRTake
 import SctpVerif.Proofs.NetSys.PRLost
+import SctpVerif.Proofs.NetSys.PRLostDec
 import SctpVerif.Proofs.NetSys.Proj
 /-!
 # C07 — the composition with FORWARD-TSN: sender half + adversarial network + receiver half (`NetSysPR`)
@@ -263,6 +264,116 @@ example : TsnFifo (moved PX (init PX) opsX) (written (init PX).snd (NetSys.sndOp
 -- test: the ghost `pushed` — TSN 2^32−1 (the partially received fragment), 0, 1, and the late copy of 2^32−2 is NOT pushed (below the point)
 set_option maxRecDepth 1000000 in
 example : pushed PX (init PX) opsX = [4294967295#32, 0#32, 1#32] := by decide
+
+/-! ### non-vacuity of the two theorems above: concrete runs that MEET ALL their hypotheses
+
+The premises `GoodChunkS` / `FwdOk` (incl. `EntOk`) / `hgood` quantify over decompositions of the run; they are exhibited through
+their executable forms `goodOpsD` / `fwdOkR` / `goodRunD` (`Proofs/Receiver/PrefixSkipDec.lean`, `Proofs/NetSys/PRLostDec.lean`,
+each with a soundness lemma), evaluated by `decide` on the concrete run. -/
+
+-- receive half: stream 3, TSNs from 100: message 0 (TSN 100) ABANDONED, the first of the stream, nothing of it ever arrives;
+-- message 1 (101) reliable; message 2 (102, 103) ABANDONED, partially received (second fragment only); message 3 (104, 105) reliable.
+private def SN : Reasm.Sender :=
+  { si := 3, t0 := 100, msgs := [{ ppi := 60, frags := [[1]] }, { ppi := 61, frags := [[2]] },
+                                 { ppi := 62, frags := [[3], [4]] }, { ppi := 63, frags := [[5], [6]] }] }
+private def KN : Nat → Bool := fun k => k == 0 || k == 2
+private def UN : Receiver.UnivS :=
+  { t := 100, N := 10, hN := by decide, senders := [SN],
+    wf := by intro S hS; simp at hS; subst hS; unfold Reasm.Sender.WF; decide,
+    t0 := by intro S hS; simp at hS; subst hS; rfl,
+    idx := by
+      intro S hS k i hk hi
+      simp at hS; subst hS
+      have h : ∀ k, k < SN.msgs.length → ∀ i, i < SN.nf k → SN.base k + i < 10 := by decide
+      exact h k hk i hi,
+    si := by intro S hS S' hS' _; simp at hS hS'; rw [hS, hS'] }
+-- the FORWARD-TSN naming (3, SSN 0) arrives BEFORE any DATA of the stream (the stream does not exist yet); message 1; the second
+-- fragment of the abandoned message 2; the last fragment of message 3 with a duplicate; the FORWARD-TSN naming (3, SSN 2) — taken:
+-- message 1, the only non-abandoned message at or below it, was handed over before —; both FORWARD-TSNs again (stale); the first
+-- fragment of message 3; reads.
+private def opsN : List Receiver.Op :=
+  [.pkt [.fwd 100 [(3, 0)]], .pkt [.data (SN.dataFrag 1 0) false], .pkt [.data (SN.dataFrag 2 1) false],
+   .pkt [.data (SN.dataFrag 3 1) false, .data (SN.dataFrag 3 1) false], .pkt [.fwd 103 [(3, 2)]],
+   .pkt [.fwd 103 [(3, 2)], .fwd 100 [(3, 0)]], .pkt [.data (SN.dataFrag 3 0) false],
+   .read (3, 0) 100, .read (3, 0) 100, .read (3, 0) 100]
+set_option maxRecDepth 1000000 in
+private theorem goodN : Receiver.goodOpsD UN SN opsN = true := by decide
+set_option maxRecDepth 1000000 in
+private theorem fwdN : Receiver.fwdOkR SN KN (Receiver.init 65536 0 false true false 0 UN.t) [] opsN = true := by decide
+-- all hypotheses hold (universe membership, < 2^15 messages, maxEntries = 0 is the literal 0, GoodChunkS, FwdOk incl. EntOk) …
+example : ∃ D : List Nat,
+    Receiver.delivs SN.si (Receiver.init 65536 0 false true false 0 UN.t) opsN = D.map (fun k => Reasm.Msg.out (SN.msg k)) ∧
+    D.Pairwise (· < ·) ∧ (∀ k ∈ D, k < SN.msgs.length) ∧
+    (Receiver.delivs SN.si (Receiver.init 65536 0 false true false 0 UN.t) opsN).Sublist (SN.msgs.map Reasm.Msg.out) ∧
+    (∀ k, k < SN.msgs.length → KN k = false →
+      (∀ i, i < SN.nf k → (SN.dataFrag k i).tsn ∈ Receiver.pushedT (Receiver.init 65536 0 false true false 0 UN.t) opsN) →
+      k ∈ D ∨ SN.concSet (k, List.range (SN.nf k)) ∈
+        (Receiver.qOf (Receiver.run (Receiver.init 65536 0 false true false 0 UN.t) opsN) SN.si).ordered) :=
+  C07_receiver_skip_then_deliver UN SN (by simp [UN]) (by decide) KN 65536 false true false 0 opsN
+    (Receiver.goodOpsD.sound (by simp [UN]) goodN) (Receiver.fwdOkR.sound _ _ _ fwdN)
+-- … and the `D` of the conclusion is [1, 3]: the two reliable messages, whole, in order; the abandoned ones are not delivered; the
+-- FORWARD-TSN that came first and the stale copies changed nothing else; what was handed over: TSN 101, 103, 105, 104
+set_option maxRecDepth 1000000 in
+example : Receiver.delivs SN.si (Receiver.init 65536 0 false true false 0 UN.t) opsN = [1, 3].map (fun k => Reasm.Msg.out (SN.msg k)) ∧
+    [1, 3].map (fun k => Reasm.Msg.out (SN.msg k)) = [(61, [2]), (63, [5, 6])] ∧
+    Receiver.pushedT (Receiver.init 65536 0 false true false 0 UN.t) opsN = [101#32, 103#32, 105#32, 104#32] := by decide
+
+-- NetSysPR: the run `opsX` above (stream 2 rexmit 0: message 0 = two fragments, TSN 2^32−2, 2^32−1, and message 2, TSN 1, both abandoned;
+-- stream 1 reliable: message 1, TSN 0). Universe: the two streams with the fragments `packetize` cut (payload limit 2) at the TSN
+-- offsets the run assigned.
+private def S2 : Reasm.Sender :=
+  { si := 2, t0 := 4294967294#32, msgs := [{ ppi := 60, frags := [[1, 2], [3]] }, { ppi := 62, frags := [[9, 8]] }],
+    skip := fun k => if k == 1 then 1 else 0 }
+private def S1 : Reasm.Sender :=
+  { si := 1, t0 := 4294967294#32, msgs := [{ ppi := 61, frags := [[7]] }], skip := fun _ => 2 }
+private def UX : Receiver.UnivS :=
+  { t := 4294967294#32, N := 4, hN := by decide, senders := [S2, S1],
+    wf := by intro S hS; simp at hS; rcases hS with rfl | rfl <;> (unfold Reasm.Sender.WF; decide),
+    t0 := by intro S hS; simp at hS; rcases hS with rfl | rfl <;> rfl,
+    idx := by
+      intro S hS k i hk hi
+      simp at hS
+      rcases hS with rfl | rfl
+      · have h : ∀ k, k < S2.msgs.length → ∀ i, i < S2.nf k → S2.base k + i < 4 := by decide
+        exact h k hk i hi
+      · have h : ∀ k, k < S1.msgs.length → ∀ i, i < S1.nf k → S1.base k + i < 4 := by decide
+        exact h k hk i hi,
+    si := by
+      intro S hS S' hS' h
+      simp at hS hS'
+      rcases hS with rfl | rfl <;> rcases hS' with rfl | rfl
+      · rfl
+      · exact absurd h (by decide)
+      · exact absurd h (by decide)
+      · rfl }
+set_option maxRecDepth 1000000 in
+private theorem goodX2 : goodRunD PX UX S2 (init PX) opsX = true := by decide
+set_option maxRecDepth 1000000 in
+private theorem goodX1 : goodRunD PX UX S1 (init PX) opsX = true := by decide
+set_option maxRecDepth 1000000 in
+private theorem fwdX2 : Receiver.fwdOkR S2 (fun _ => true) (init PX).rcv [] (rcvOps PX (init PX) opsX) = true := by decide
+set_option maxRecDepth 1000000 in
+private theorem fwdX1 : Receiver.fwdOkR S1 (fun _ => false) (init PX).rcv [] (rcvOps PX (init PX) opsX) = true := by decide
+-- the rexmit-0 stream 2 (every message abandoned: `K ≡ true`): all premises hold; its reads are a subsequence of its writes
+example : ∃ D : List Nat, readsOn PX S2.si (init PX) opsX = D.map (fun k => Reasm.Msg.out (S2.msg k)) ∧ D.Pairwise (· < ·) ∧
+    (∀ k ∈ D, k < S2.msgs.length) ∧ (readsOn PX S2.si (init PX) opsX).Sublist (S2.msgs.map Reasm.Msg.out) ∧
+    (∀ k, k < S2.msgs.length → (fun _ => true) k = false → (∀ i, i < S2.nf k → (S2.dataFrag k i).tsn ∈ pushed PX (init PX) opsX) →
+      k ∈ D ∨ S2.concSet (k, List.range (S2.nf k)) ∈ (Receiver.qOf (run PX (init PX) opsX).rcv S2.si).ordered) :=
+  C07_netsys_nothing_lost_partial PX opsX rfl UX rfl S2 (by simp [UX]) (by decide) (fun _ => true)
+    (goodRunD.sound (by simp [UX]) opsX (init PX) goodX2) (Receiver.fwdOkR.sound _ _ _ fwdX2)
+-- the reliable stream 1 sharing the association (`K ≡ false`): all premises hold; its message was handed over, hence read or kept
+example : ∃ D : List Nat, readsOn PX S1.si (init PX) opsX = D.map (fun k => Reasm.Msg.out (S1.msg k)) ∧ D.Pairwise (· < ·) ∧
+    (∀ k ∈ D, k < S1.msgs.length) ∧ (readsOn PX S1.si (init PX) opsX).Sublist (S1.msgs.map Reasm.Msg.out) ∧
+    (∀ k, k < S1.msgs.length → (fun _ => false) k = false → (∀ i, i < S1.nf k → (S1.dataFrag k i).tsn ∈ pushed PX (init PX) opsX) →
+      k ∈ D ∨ S1.concSet (k, List.range (S1.nf k)) ∈ (Receiver.qOf (run PX (init PX) opsX).rcv S1.si).ordered) :=
+  C07_netsys_nothing_lost_partial PX opsX rfl UX rfl S1 (by simp [UX]) (by decide) (fun _ => false)
+    (goodRunD.sound (by simp [UX]) opsX (init PX) goodX1) (Receiver.fwdOkR.sound _ _ _ fwdX1)
+-- the universe describes the run: its message lists ARE the writes, and the `D`s are [1] (stream 2: the later message; the
+-- abandoned first one is skipped) and [0] (stream 1)
+set_option maxRecDepth 1000000 in
+example : S2.msgs.map Reasm.Msg.out = writesOn PX 2 (init PX) opsX ∧ S1.msgs.map Reasm.Msg.out = writesOn PX 1 (init PX) opsX ∧
+    readsOn PX 2 (init PX) opsX = [1].map (fun k => Reasm.Msg.out (S2.msg k)) ∧
+    readsOn PX 1 (init PX) opsX = [0].map (fun k => Reasm.Msg.out (S1.msg k)) := by decide
 
 -- test (receive half alone, by evaluation): stream 3, message 0 (one fragment) abandoned and never delivered, message 1 (two
 -- fragments) reliable. The FORWARD-TSN naming (3, SSN 0) arrives FIRST (the stream does not exist yet), then the fragments
